@@ -1,7 +1,7 @@
 (* C03 — paged and resumed reading delivers every matching event exactly once.
    Property theorems only; each is closed by a lemma of proofs/PagingP.v.
 
-   Vocabulary (model/Paging.v): `run_from clear filtered flt choose st PHead steps` is the list of pages a client
+   Vocabulary (model/Paging.v): `run_from clear filtered flt choose strict st PHead steps` is the list of pages a client
    gets that starts at the head of store `st` and chains pages by the resume kinds of `steps` (each step: kind,
    limit, WaitTimeout > 0, appends that happen before the page). `clear` = does LogEvent.Unmarshal clear Fields
    (false on the unchanged tree); `filtered`/`flt` = the WHERE/RANGE filter; `choose` = which source the merge
@@ -15,54 +15,54 @@ From Coq Require Import Permutation.
    {same cursor, evicted, ReqId zeroed, Pos only}: no model loop runs out of fuel, and the concatenation of the
    pages restricted to any partition is exactly the matching events among the first N stored events of that
    partition, in stored order, each once - N being the flat index of the partition's position in the last Pos. *)
-Theorem C03_pages : forall clear filtered flt choose st steps, wf_store st -> no_retry steps -> no_appends steps ->
-  let rs := run_from clear filtered flt choose st PHead steps in
+Theorem C03_pages : forall clear filtered flt choose strict st steps, wf_store st -> no_retry steps -> no_appends steps ->
+  let rs := run_from clear filtered flt choose strict st PHead steps in
   Forall (fun r => rs_ok r = true) rs /\
   forall p, events_of p (concat (map rs_events rs)) =
             filter (eff_flt filtered flt) (map (obs p) (firstn (pos_of st p (last (map rs_pos rs) PHead)) (part_events st p))).
 Proof.
-  intros clear filtered flt choose st steps Hwf Hnr Hna.
-  pose proof (paged_read clear filtered flt choose st steps Hwf Hnr) as H. rewrite (final_no_appends st steps Hna) in H. exact H.
+  intros clear filtered flt choose strict st steps Hwf Hnr Hna.
+  pose proof (paged_read clear filtered flt choose strict st steps Hwf Hnr) as H. rewrite (final_no_appends st steps Hna) in H. exact H.
 Qed.
 Print Assumptions C03_pages.
 
 (* ---- a read that reached the end (the last page came back short of its limit) has delivered, per partition,
    exactly the matching events, provided the merge picks some non-exhausted source whenever there is one *)
-Theorem C03_pages_complete : forall clear filtered flt choose st steps, wf_store st -> no_retry steps -> no_appends steps ->
-  choose_valid choose -> last_page_short steps (run_from clear filtered flt choose st PHead steps) ->
-  forall p, events_of p (concat (map rs_events (run_from clear filtered flt choose st PHead steps))) =
+Theorem C03_pages_complete : forall clear filtered flt choose strict st steps, wf_store st -> no_retry steps -> no_appends steps ->
+  choose_valid choose -> last_page_short steps (run_from clear filtered flt choose strict st PHead steps) ->
+  forall p, events_of p (concat (map rs_events (run_from clear filtered flt choose strict st PHead steps))) =
             filter (eff_flt filtered flt) (map (obs p) (part_events st p)).
 Proof.
-  intros clear filtered flt choose st steps Hwf Hnr Hna Hv Hsh p.
-  pose proof (paged_read_complete clear filtered flt choose st steps Hwf Hnr Hv Hsh p) as H.
+  intros clear filtered flt choose strict st steps Hwf Hnr Hna Hv Hsh p.
+  pose proof (paged_read_complete clear filtered flt choose strict st steps Hwf Hnr Hv Hsh p) as H.
   rewrite (final_no_appends st steps Hna) in H. exact H.
 Qed.
 Print Assumptions C03_pages_complete.
 
 (* ---- hence two complete reads of the same store (any two limit/resume scripts, e.g. a paged one and a single
    unlimited one) deliver the same events: equal per partition, and equal as multisets *)
-Theorem C03_pages_multiset : forall clear filtered flt choose1 choose2 st steps1 steps2, wf_store st ->
+Theorem C03_pages_multiset : forall clear filtered flt choose1 choose2 strict st steps1 steps2, wf_store st ->
   no_retry steps1 -> no_appends steps1 -> no_retry steps2 -> no_appends steps2 -> choose_valid choose1 -> choose_valid choose2 ->
-  last_page_short steps1 (run_from clear filtered flt choose1 st PHead steps1) ->
-  last_page_short steps2 (run_from clear filtered flt choose2 st PHead steps2) ->
-  Permutation (concat (map rs_events (run_from clear filtered flt choose1 st PHead steps1)))
-              (concat (map rs_events (run_from clear filtered flt choose2 st PHead steps2))).
+  last_page_short steps1 (run_from clear filtered flt choose1 strict st PHead steps1) ->
+  last_page_short steps2 (run_from clear filtered flt choose2 strict st PHead steps2) ->
+  Permutation (concat (map rs_events (run_from clear filtered flt choose1 strict st PHead steps1)))
+              (concat (map rs_events (run_from clear filtered flt choose2 strict st PHead steps2))).
 Proof.
-  intros clear filtered flt c1 c2 st s1 s2 Hwf N1 A1 N2 A2 V1 V2 S1 S2.
+  intros clear filtered flt c1 c2 strict st s1 s2 Hwf N1 A1 N2 A2 V1 V2 S1 S2.
   apply (same_parts_perm (length st)).
-  - apply (run_srcs_lt clear filtered flt c1 st s1 Hwf N1). exact (final_no_appends st s1 A1).
-  - apply (run_srcs_lt clear filtered flt c2 st s2 Hwf N2). exact (final_no_appends st s2 A2).
+  - apply (run_srcs_lt clear filtered flt c1 strict st s1 Hwf N1). exact (final_no_appends st s1 A1).
+  - apply (run_srcs_lt clear filtered flt c2 strict st s2 Hwf N2). exact (final_no_appends st s2 A2).
   - intros p.
-    rewrite (C03_pages_complete clear filtered flt c1 st s1 Hwf N1 A1 V1 S1 p).
-    rewrite (C03_pages_complete clear filtered flt c2 st s2 Hwf N2 A2 V2 S2 p). reflexivity.
+    rewrite (C03_pages_complete clear filtered flt c1 strict st s1 Hwf N1 A1 V1 S1 p).
+    rewrite (C03_pages_complete clear filtered flt c2 strict st s2 Hwf N2 A2 V2 S2 p). reflexivity.
 Qed.
 Print Assumptions C03_pages_multiset.
 
 (* ---- appends between pages: the same statement against the store as it is after the last page. Since appends
    only add events behind the stored ones (C03_append_only), what was delivered is never delivered again and
    the new events come after it; a read that reached the end has delivered everything that matches. *)
-Theorem C03_appends : forall clear filtered flt choose st steps, wf_store st -> no_retry steps ->
-  let rs := run_from clear filtered flt choose st PHead steps in
+Theorem C03_appends : forall clear filtered flt choose strict st steps, wf_store st -> no_retry steps ->
+  let rs := run_from clear filtered flt choose strict st PHead steps in
   let stf := final_store st steps in
   Forall (fun r => rs_ok r = true) rs /\
   forall p, events_of p (concat (map rs_events rs)) =
@@ -70,9 +70,9 @@ Theorem C03_appends : forall clear filtered flt choose st steps, wf_store st -> 
 Proof. exact paged_read. Qed.
 Print Assumptions C03_appends.
 
-Theorem C03_appends_complete : forall clear filtered flt choose st steps, wf_store st -> no_retry steps ->
-  choose_valid choose -> last_page_short steps (run_from clear filtered flt choose st PHead steps) ->
-  forall p, events_of p (concat (map rs_events (run_from clear filtered flt choose st PHead steps))) =
+Theorem C03_appends_complete : forall clear filtered flt choose strict st steps, wf_store st -> no_retry steps ->
+  choose_valid choose -> last_page_short steps (run_from clear filtered flt choose strict st PHead steps) ->
+  forall p, events_of p (concat (map rs_events (run_from clear filtered flt choose strict st PHead steps))) =
             filter (eff_flt filtered flt) (map (obs p) (part_events (final_store st steps) p)).
 Proof. exact paged_read_complete. Qed.
 Print Assumptions C03_appends_complete.
@@ -94,9 +94,9 @@ Print Assumptions C03_iter_next.
 
 (* ---- content, over all five kinds (the four of the property plus "the previous request sent again", what a
    client does when it retries a page): every delivered event is a stored event of its partition *)
-Definition C03_content_statement (clear : bool) : Prop :=
+Definition C03_content_statement (clear strict : bool) : Prop :=
   forall filtered flt choose st steps, wf_store st ->
-  forall ev, In ev (concat (map rs_events (run_from clear filtered flt choose st PHead steps))) ->
+  forall ev, In ev (concat (map rs_events (run_from clear filtered flt choose strict st PHead steps))) ->
   In ev (map (obs (o_src ev)) (part_events (final_store st steps) (o_src ev))).
 
 Definition ex1_store : store :=
@@ -107,26 +107,26 @@ Lemma ex1_wf : wf_store ex1_store.
 Proof. split; [repeat constructor; intros []|repeat constructor]. Qed.
 
 (* refuted on the unchanged tree (clear = false): the retried page delivers event 2 with the fields of event 3 *)
-Theorem C03_content_refuted : ~ C03_content_statement false.
+Theorem C03_content_refuted : ~ C03_content_statement false false.
 Proof.
   intros H. specialize (H false (fun _ => true) choose_min ex1_store ex1_steps ex1_wf (mkOev 0 2 [x62] [x73; x3d; x78])).
-  assert (In (mkOev 0 2 [x62] [x73; x3d; x78]) (concat (map rs_events (run_from false false (fun _ => true) choose_min ex1_store PHead ex1_steps)))) as Hin
+  assert (In (mkOev 0 2 [x62] [x73; x3d; x78]) (concat (map rs_events (run_from false false (fun _ => true) choose_min false ex1_store PHead ex1_steps)))) as Hin
     by (vm_compute; right; right; left; reflexivity).
   specialize (H Hin). vm_compute in H. repeat (destruct H as [H|H]; [discriminate H|]). exact H.
 Qed.
 Print Assumptions C03_content_refuted.
 
 (* proved for the four kinds of the property, whatever Unmarshal does *)
-Theorem C03_content_partial : forall clear filtered flt choose st steps, wf_store st -> no_retry steps ->
-  forall ev, In ev (concat (map rs_events (run_from clear filtered flt choose st PHead steps))) ->
+Theorem C03_content_partial : forall clear filtered flt choose strict st steps, wf_store st -> no_retry steps ->
+  forall ev, In ev (concat (map rs_events (run_from clear filtered flt choose strict st PHead steps))) ->
   In ev (map (obs (o_src ev)) (part_events (final_store st steps) (o_src ev))).
 Proof. exact delivered_are_stored. Qed.
 Print Assumptions C03_content_partial.
 
 (* ---- a request sent again (same ReqId, same Pos, same limit, nothing appended) returns the same page *)
-Definition C03_retry_statement (clear : bool) : Prop :=
+Definition C03_retry_statement (clear strict : bool) : Prop :=
   forall filtered flt choose st steps k l w, wf_store st ->
-  forall a b, skipn (length steps) (map rs_events (run_from clear filtered flt choose st PHead
+  forall a b, skipn (length steps) (map rs_events (run_from clear filtered flt choose strict st PHead
                                        (steps ++ [mkStep k l w []; mkStep RRetry l w []]))) = [a; b] -> a = b.
 
 Definition ex2_store : store :=
@@ -134,7 +134,7 @@ Definition ex2_store : store :=
 
 (* refuted with or without the Fields repair: with a WHERE filter the fiterator hands out the event it had
    peeked (event 3) instead of the one at Pos (event 2) *)
-Theorem C03_retry_refuted : forall clear, ~ C03_retry_statement clear.
+Theorem C03_retry_refuted : forall clear, ~ C03_retry_statement clear false.
 Proof.
   intros clear H.
   assert (wf_store ex2_store) as Hwf by (split; [repeat constructor; intros []|repeat constructor]).
@@ -157,7 +157,23 @@ Proof.
   split; [repeat constructor; discriminate|exact choose_min_valid].
 Qed.
 Example C03_ex_run :
-  map (fun r => map (fun e => (o_src e, o_ts e)) (rs_events r)) (run_from false false (fun _ => true) choose_min ex3_store PHead ex3_steps)
+  map (fun r => map (fun e => (o_src e, o_ts e)) (rs_events r)) (run_from false false (fun _ => true) choose_min false ex3_store PHead ex3_steps)
   = [[(0%nat, 10%Z); (1%nat, 20%Z)]; [(0%nat, 30%Z)]; [(1%nat, 40%Z)]; [(0%nat, 50%Z)]; [(1%nat, 60%Z)]]
-  /\ last_page_short ex3_steps (run_from false false (fun _ => true) choose_min ex3_store PHead ex3_steps).
+  /\ last_page_short ex3_steps (run_from false false (fun _ => true) choose_min false ex3_store PHead ex3_steps).
 Proof. vm_compute. split; [reflexivity|lia]. Qed.
+
+(* ---- the two witnesses under the proposed repairs (what flipping `repo_clears_fields` / `repo_strict_pos` means):
+   with Unmarshal clearing Fields the retried page of ex1 carries the stored fields; with a provider that never
+   re-positions a cached cursor the retried page of ex2 is the page delivered before *)
+Example C03_ex_fixed_fields :
+  map (fun r => map (fun e => (o_ts e, o_flds e)) (rs_events r)) (run_from true false (fun _ => true) choose_min false ex1_store PHead ex1_steps)
+  = [[(1%Z, [])]; [(2%Z, [])]; [(2%Z, [])]].
+Proof. vm_compute. reflexivity. Qed.
+Example C03_ex_fixed_provider :
+  map (fun r => map o_ts (rs_events r))
+      (run_from false true (flt_of (FContains [x6b])) choose_min true ex2_store PHead
+                [mkStep RSame 1 true []; mkStep RSame 1 true []; mkStep RRetry 1 true []])
+  = [[1%Z]; [2%Z]; [2%Z]]
+  /\ map (fun r => map (fun e => (o_ts e, o_flds e)) (rs_events r)) (run_from false false (fun _ => true) choose_min true ex1_store PHead ex1_steps)
+  = [[(1%Z, [])]; [(2%Z, [])]; [(2%Z, [])]].
+Proof. vm_compute. split; reflexivity. Qed.
